@@ -21,8 +21,8 @@ type Edge struct {
 
 type LTS struct {
 	Edges []*Edge
-	Out   map[string][]*Edge          // state -> outgoing edges
-	Inits map[string]Ev               // initial state id -> cfg
+	Out   map[string][]*Edge            // state -> outgoing edges
+	Inits map[string]Ev                 // initial state id -> cfg
 	Group map[string]map[string][]*Edge // state -> stimulus -> edges
 }
 
